@@ -138,6 +138,12 @@ def impl(case):
     for r in range(case["R"]):
         y = sim.run(effects, heritability=case["h2"], prevalence=case["K"], normalize=case["normalize"], environment=case["env"])
         ys.append([float(x) for x in y])
+        # what the caller does with the vector it was handed (standardise it in place, say) is its own business: the archive
+        # that write() saves must not follow
+        try:
+            y[...] = -7
+        except (TypeError, ValueError):
+            pass
     sim.write()
     from haptools.data import Phenotypes
 
@@ -310,7 +316,7 @@ def impl_files(case):
         ids = {i for i, _ in case["effects"]}
     else:
         lines = lines[: len(case["effects"])]
-    open(d / "e.snplist", "w").write("\n".join(lines) + "\n")
+    open(d / "e.snplist", "w").write(C.text_ending(case, "e.snplist", "\n".join(lines) + "\n"))
     eff_file = d / "e.snplist"
     if case.get("hap_effects"):
         with open(d / "e.hap", "w") as f:
